@@ -337,7 +337,7 @@ fn bucket_case() -> impl Strategy<Value = BucketCase> {
                 1 => Just(overflow + 1),
                 1 => Just((1u64 << 32) + 1),
             ];
-            let shape = prop_oneof![Just(Shape::Answer(0)), Just(Shape::NxDomain(0)), Just(Shape::Refused(0)), Just(Shape::Wild(0, 0)), Just(Shape::ServFail)];
+            let shape = prop_oneof![Just(Shape::Answer(0)), Just(Shape::NxDomain(0)), Just(Shape::Refused(0)), Just(Shape::Wild(0, 0)), Just(Shape::ServFail), Just(Shape::BadVers), Just(Shape::FormErr), Just(Shape::NotImpQtype), Just(Shape::NoData), Just(Shape::Referral)];
             (
                 Just(RrlSpec { noerror, nxdomain, error, window, slip, v4_prefix: 24, v6_prefix: 56, size }),
                 shape,
